@@ -4,7 +4,6 @@ import (
 	"encoding/binary"
 	"reflect"
 	"unsafe"
-
 )
 
 func stackView(rbp, top uintptr) []byte {
